@@ -89,7 +89,7 @@ func ruleSplitGuard(c *chk.Ctx) {
 			if call, isCall := cd.V.(*ssa.Call); isCall && strings.HasPrefix(ir.CalleeName(&call.Call), "slices.Contains") && len(call.Call.Args) == 2 {
 				// slices.Contains(msg, delim) on the byte slice is a byte search
 				if _, isParam := c.P.Canon(call.Call.Args[0]).(*ssa.Parameter); isParam {
-					if u, isU := call.Call.Args[1].(*ssa.UnOp); isU && isFieldLoadNamed(u, delim) {
+					if _, fv, isF := ir.FieldRead(call.Call.Args[1]); isF && fv == delim {
 						if cd.Truth {
 							return -1
 						}
@@ -111,7 +111,7 @@ func ruleSplitGuard(c *chk.Ctx) {
 			if _, isParam := c.P.Canon(call.Call.Args[0]).(*ssa.Parameter); !isParam {
 				return 0
 			}
-			if u, isU := call.Call.Args[1].(*ssa.UnOp); !isU || !isFieldLoadNamed(u, delim) {
+			if _, fv, isF := ir.FieldRead(call.Call.Args[1]); !isF || fv != delim {
 				return 0
 			}
 			k, isC := ir.ConstInt(y)
@@ -323,7 +323,7 @@ func ruleHeaderAgreement(c *chk.Ctx) {
 func ruleDirectEOF(c *chk.Ctx) {
 	for _, f := range chanMethods(c, "Recv") {
 		var recv *ssa.UnOp
-		ir.Instrs(f, func(ins ssa.Instruction) {
+		c.P.ExtInstrs(f, func(ins ssa.Instruction) {
 			if u, ok := ins.(*ssa.UnOp); ok && u.Op == token.ARROW && u.CommaOk {
 				recv = u
 			}
@@ -332,7 +332,8 @@ func ruleDirectEOF(c *chk.Ctx) {
 			continue
 		}
 		okEOF, okData := false, false
-		for _, r := range ir.Returns(f) {
+		// (the receive may sit in a private helper whose results Recv returns as they are)
+		for _, r := range effectiveReturns(c, f, 0) {
 			closed, open := false, false
 			for _, cd := range ir.CondsAt(r.Block()) {
 				if e, ok := cd.V.(*ssa.Extract); ok && e.Tuple == ssa.Value(recv) && e.Index == 1 {
@@ -889,6 +890,17 @@ func delimiterRecv(c *chk.Ctx) *delimModel {
 			return n > 0
 		}
 		m.isErr = func(v ssa.Value) bool {
+			if phi, isPhi := v.(*ssa.Phi); isPhi {
+				// after a flag-controlled loop, the variable holds what the last iteration stored
+				if live := ir.ExitLiveEdges(phi); len(live) < len(phi.Edges) {
+					for _, e := range live {
+						if !m.isErr(e) {
+							return false
+						}
+					}
+					return true
+				}
+			}
 			n := 0
 			for _, src := range c.P.SourcesStop(v, func(x ssa.Value) bool { return isRead(x, 1) }) {
 				if g := globalLoad(src); g != nil && g.Pkg != nil && g.Pkg.Pkg.Path() == "bufio" && g.Name() == "ErrBufferFull" {
